@@ -27,7 +27,7 @@ MANIFEST = {
                  'router) must return the same values; literal parts verbatim and in order',
     'text': 'Every rule of the extended universe in every syntax flavour, with every parameter assignment obtained by '
             'matching the generated paths (adversarial wildcard values incl. numeric edge texts), is round-tripped through '
-            'the real Route.url and RadiRouter.resolve.',
+            'the real Route.url and RadiRouter.resolve. Rule pairs in one router, rules carrying a hook with other wildcard names, and one Route object building the URLs of all its matches in both orders are layers of their own.',
     'note': 'Bounds: rules of <=4 atoms from the stated universe; values from the generators. Trusted: reference matcher.',
 }
 
